@@ -659,6 +659,7 @@ def getitem(obj, key):
 
 
 def dict_lookup(d, key, default=UNBOUND):
+    """d[key] / d.get(key, default) with a symbolic key (or symbolic stored keys): later entries win, like overwriting"""
     alts = []
     hit = 0
     for k, v in d.items():
@@ -677,11 +678,20 @@ def dict_lookup(d, key, default=UNBOUND):
             else:
                 raise KeyError(key)
         else:
-            alts.append((miss, default))
-    r = alts[0][1]
-    for g, v in alts[1:]:
-        r = merge(g, v, r)
-    return r
+            alts.insert(0, (miss, default))
+    try:
+        r = alts[0][1]
+        for g, v in alts[1:]:
+            r = merge(g, v, r)
+        return r
+    except MergeFail:
+        if GUARDS:
+            raise
+        # values that cannot be merged (e.g. None vs a number): case analysis instead, last matching entry first
+        for g, v in reversed(alts[1:]):
+            if explore.decide(g):
+                return v
+        return alts[0][1]
 
 
 # ---------------------------------------------------------------------------- array('b') stand-in
